@@ -47,7 +47,7 @@ def event_tables(ctx, F, body):
         if len(set(inds)) > 1:
             continue
         # skip the error exits of `?` inside the CData arm (partial output)
-        if r is not None and r[0] == "call" and name_is(r[2], "from_residual"):
+        if r is not None and ((r[0] == "call" and name_is(r[2], "from_residual")) or is_error_exit(p)):
             continue
         acts = []
         order = []
@@ -126,7 +126,7 @@ def wrapped_seq(ctx, F, body):
     out = set()
     for p in ctx.paths(body):
         r = ret_of(p)
-        if r is None or ends(p) != "ret" or (r[0] == "call" and name_is(r[2], "from_residual")):
+        if r is None or ends(p) != "ret" or (r[0] == "call" and name_is(r[2], "from_residual")) or is_error_exit(p):
             continue
         seq = []
         for c in calls(p):
